@@ -99,6 +99,11 @@ CLAIMED = {
          "the separable class is closed under (U (x) V) and party exchange (so invariance of a correct verdict is meaningful); in_separable_ball's mirror equals (n-1)||M||_F^2 <= (tr M)^2. Per run: is_ppt / is_npt on states with exact structure vs certified lambda_min of the exact partial transpose; is_separable never rejects exact mixtures of rational product states, never accepts "
          "certified NPT states, agrees with PPT for dA dB <= 6, invariant under local rational unitaries and swap, with the deciding return statement traced (sys.monitoring) for branch coverage; in_separable_ball vs the exact decision; has_symmetric_extension accepts separable constructions.",
          "Trusted: Lean kernel + standard axioms; Python harness. Cited: soundness of toqito's sufficient separability criteria, PPT sufficiency for dA dB <= 6. Known findings: has_symmetric_extension's SDP branch is constantly False; is_separable's late stages (Breuer-Hall / final symmetric-extension stage) reject separable states or raise."),
+ "C14": ("Lean 4 theorems on exact models of Schmidt rank / product test / purity / partial transpose / realignment and the closed forms for planted Schmidt data (negativity via the trace norm of the partial transpose, entropy additivity, concurrence) + verified rank certificates; exact ground-truth constructions as correspondence",
+         "Kernel-checked: the reshape of schmidt_rank is the amplitude matrix (and the pre-fix reshape is not, with the concrete counterexample); (U (x) V) psi has amplitude matrix U A V^T so Schmidt rank and operator Schmidt rank are local invariants; planted states have rank = number of non-zero s_i; a vector/operator is a product iff all 2x2 minors vanish; "
+         "purity and the characteristic polynomial are unitarily invariant; entropy is additive on products; partial transpose is covariant under local unitaries; for every pure state the partial transpose has (rho^T_B)^H rho^T_B = (A A^H) (x) (A^H A), hence ||rho^T_B||_1 = (sum s_i)^2 for planted Schmidt coefficients (negativity / log-negativity closed form); "
+         "concurrence 2|det A| and its planted value; S(k) vector norm as sum of the k largest squares; rank certificates sound. Tie to /repo: states built as (U (x) V) sum s_i |ii> with rational s and exact rational unitaries, unequal local dims, all dim forms; every function compared with the closed form (1e-9 scale; exact for ranks and verdicts); local-unitary invariance on mixed states.",
+         "Trusted: Lean kernel + standard axioms; Python harness. Partial (stated in evidence): S(k) operator norm and is_block_positive are only bracketed one-sidedly outside closed-form families; Eckart-Young (S(k) vector norm = max overlap) not proved; trace norm = numpy nuclear norm assumed."),
 }
 PENDING_REASON = "check not built yet in this round (work in progress; see DESIGN.md section 7 for the plan)"
 
